@@ -1,0 +1,126 @@
+//! Read-only views of crate-internal tables and of the tokenizer, for external verification tooling.
+//!
+//! Compiled only with the `verif-hooks` feature. Nothing in here changes the behaviour of the crate.
+
+use crate::{
+    error::EvalexprResult,
+    operator::Operator,
+    token::{self, PartialToken, Token},
+    value::numeric_types::default_numeric_types::DefaultNumericTypes,
+};
+
+type T = Token<DefaultNumericTypes>;
+type P = PartialToken<DefaultNumericTypes>;
+
+fn hex(s: &str) -> String {
+    s.bytes().map(|b| format!("{:02x}", b)).collect()
+}
+
+fn token_text(token: &T) -> String {
+    match token {
+        Token::Identifier(s) => format!("Identifier:{}", hex(s)),
+        Token::Float(f) => format!("Float:{:016x}", f.to_bits()),
+        Token::Int(i) => format!("Int:{}", i),
+        Token::Boolean(b) => format!("Boolean:{}", *b as u8),
+        Token::String(s) => format!("String:{}", hex(s)),
+        other => format!("{:?}", other),
+    }
+}
+
+fn partial_token_text(token: &P) -> String {
+    match token {
+        PartialToken::Token(t) => format!("Token({})", token_text(t)),
+        PartialToken::Literal(s) => format!("Literal:{}", hex(s)),
+        other => format!("{:?}", other),
+    }
+}
+
+/// The tokens of `string`, each rendered canonically (payload strings as hex of their UTF-8 bytes, floats as bits).
+pub fn tokenize(string: &str) -> EvalexprResult<Vec<String>> {
+    Ok(token::tokenize::<DefaultNumericTypes>(string)?
+        .iter()
+        .map(token_text)
+        .collect())
+}
+
+/// Canonical rendering of a partial token (as carried by `EvalexprError::UnmatchedPartialToken`).
+pub fn partial_token_view(token: &P) -> String {
+    partial_token_text(token)
+}
+
+/// `(precedence, is_left_to_right, is_sequence, max_argument_amount, is_unary, is_leaf)` of an operator.
+pub fn operator_props(
+    operator: &Operator<DefaultNumericTypes>,
+) -> (i32, bool, bool, Option<usize>, bool, bool) {
+    (
+        operator.precedence(),
+        operator.is_left_to_right(),
+        operator.is_sequence(),
+        operator.max_argument_amount(),
+        operator.is_unary(),
+        operator.is_leaf(),
+    )
+}
+
+/// `(name, is_leftsided_value, is_rightsided_value, is_assignment)` of the `kind`-th token variant, `None` past the last one.
+pub fn token_props(kind: usize) -> Option<(String, bool, bool, bool)> {
+    let token: T = match kind {
+        0 => Token::Plus,
+        1 => Token::Minus,
+        2 => Token::Star,
+        3 => Token::Slash,
+        4 => Token::Percent,
+        5 => Token::Hat,
+        6 => Token::Eq,
+        7 => Token::Neq,
+        8 => Token::Gt,
+        9 => Token::Lt,
+        10 => Token::Geq,
+        11 => Token::Leq,
+        12 => Token::And,
+        13 => Token::Or,
+        14 => Token::Not,
+        15 => Token::LBrace,
+        16 => Token::RBrace,
+        17 => Token::Assign,
+        18 => Token::PlusAssign,
+        19 => Token::MinusAssign,
+        20 => Token::StarAssign,
+        21 => Token::SlashAssign,
+        22 => Token::PercentAssign,
+        23 => Token::HatAssign,
+        24 => Token::AndAssign,
+        25 => Token::OrAssign,
+        26 => Token::Comma,
+        27 => Token::Semicolon,
+        28 => Token::Identifier(String::new()),
+        29 => Token::Float(0.0),
+        30 => Token::Int(0),
+        31 => Token::Boolean(false),
+        32 => Token::String(String::new()),
+        _ => return None,
+    };
+    let name = match &token {
+        Token::Identifier(_) => "Identifier".to_string(),
+        Token::Float(_) => "Float".to_string(),
+        Token::Int(_) => "Int".to_string(),
+        Token::Boolean(_) => "Boolean".to_string(),
+        Token::String(_) => "String".to_string(),
+        other => format!("{:?}", other),
+    };
+    Some((
+        name,
+        token.is_leftsided_value(),
+        token.is_rightsided_value(),
+        token.is_assignment(),
+    ))
+}
+
+/// The name of the partial token that a single character outside a string literal is classified as.
+pub fn char_class(c: char) -> String {
+    match token::char_to_partial_token_view(c) {
+        PartialToken::Token(t) => format!("Token({:?})", t),
+        PartialToken::Literal(_) => "Literal".to_string(),
+        other => format!("{:?}", other),
+    }
+}
